@@ -5,6 +5,7 @@ import re
 from ..facts import (AnalysisBroken, walk, children, strip_casts, expr_str, is_null_const, const_val, ASSIGN_OPS, CMP_OPS,
                      callee_name, indirect_field)
 from ..dataflow import solve, node_effects, access
+from .nodestate import NodeStates, source_of
 from .common import (all_functions, assignments, is_ref, is_mem, cmp_parts, region_without_edges, guarded_by, field_cache, expand_cached,
                      node_containing, find_function)
 
@@ -190,12 +191,12 @@ def _fresh_sources(u, known=()):
     return fresh
 
 
-def tab14(units, R):
+def tab14(units, R, fn_name='cJSON_Duplicate_rec'):
     u = units['cJSON.c']
-    fn = u.fn('cJSON_Duplicate_rec')
+    fn = u.fn(fn_name)
     rec = u.record('cJSON')
     fields = [(f['n'], u.ty(f['ty'])) for f in rec['fields']]
-    fresh = _fresh_sources(u) | {'cJSON_Duplicate_rec'}
+    fresh = _fresh_sources(u) | {'cJSON_Duplicate_rec', fn_name}
     src = fn.params[0]
     # the copy: the local that is returned
     rets = [strip_casts(r['e']) for r in fn.nodes() if r.get('k') == 'return' and 'e' in r and not is_null_const(r['e'])]
@@ -262,174 +263,269 @@ def tab14(units, R):
                     locals_fresh[d] = False
                     changed = True
                     break
-    for (name, t) in fields:
-        st = stores.get(name, [])
-        if name in ('next', 'prev'):
-            R.ob('TAB14', fn, None, 'returned copy has no sibling links (%s never stored)' % name, not st,
-                 'left zero by the constructor' if not st else 'copy->%s is assigned' % name, key='field:' + name)
-            continue
-        if not st:
-            R.ob('TAB14', fn, None, 'field %s is copied' % name, False, 'no store to copy->%s' % name, key='field:' + name)
-            continue
-        for a in st:
-            r = strip_casts(a['r'])
-            if t['c'] == 'ptr':
-                ok = False
-                why = ''
-                if r.get('k') == 'call' and callee_name(r) in fresh:
-                    ok, why = True, 'fresh allocation from %s' % callee_name(r)
-                elif r.get('k') == 'ref' and locals_fresh.get(r['d']):
-                    ok, why = True, 'local %s holds only fresh allocations' % r['n']
-                elif r.get('k') == 'cond':
-                    # constant key may stay shared: (item->type & cJSON_StringIsConst) ? item->string : strdup
-                    c = r['c']
-                    t_arm, e_arm = strip_casts(r['t']), strip_casts(r['e'])
-                    constflag = any('cJSON_StringIsConst' in (x.get('m') or []) for x in walk(c))
-                    arms_ok = True
-                    shared = 0
-                    for arm in (t_arm, e_arm):
-                        if arm.get('k') == 'call' and callee_name(arm) in fresh:
-                            continue
-                        if derives_from_source(arm) and name == 'string' and constflag:
-                            shared += 1
-                            continue
-                        arms_ok = False
-                    # the shared arm must be the one taken when the flag is set
-                    if arms_ok and shared == 1:
-                        flag_arm = t_arm
-                        cc = strip_casts(c)
-                        if cc.get('k') == 'un' and cc['op'] == '!':
-                            flag_arm = e_arm
-                        arms_ok = derives_from_source(flag_arm) and flag_arm.get('k') != 'call'
-                    ok = arms_ok and shared <= 1
-                    why = 'shared only under cJSON_StringIsConst, otherwise a fresh copy' if ok else \
-                        'pointer taken from the source without a copy'
-                elif r.get('k') == 'call' and callee_name(r) in u.functions and u.functions[callee_name(r)].static and name == 'string':
-                    # a helper that hands back the source's key only under its constant-key bit and a fresh copy otherwise
-                    h = u.functions[callee_name(r)]
-                    bound = [p for p, a0 in zip(h.params, r['args']) if derives_from_source(a0) and strip_casts(a0).get('k') == 'ref']
-                    hcfg = h.cfg()
-                    ok = bool(bound)
-                    why = 'helper %s: shared only under cJSON_StringIsConst, otherwise a fresh copy' % h.name
-                    for rr in hcfg.returns():
-                        if rr.expr is None:
-                            ok = False
-                            break
-                        x = strip_casts(rr.expr)
-                        if is_null_const(rr.expr) or (x.get('k') == 'call' and callee_name(x) in fresh):
-                            continue
-                        P = bound[0] if bound else None
-                        shared = P is not None and x.get('k') == 'mem' and x['f'] == 'string' and is_ref(x['b']) and \
-                            strip_casts(x['b'])['d'] == P['d']
-
-                        def const_edge(nn, l, P=P):
-                            if nn.kind != 'branch' or l is None or l[0] != 'T' or P is None:
-                                return False
-                            e = strip_casts(nn.expr)
-                            pc = cmp_parts(e)
-                            if pc is not None and pc[2] == 0 and pc[1] == '!=':
-                                e = strip_casts(pc[0])
-                            return e.get('k') == 'bin' and e['op'] == '&' and any('cJSON_StringIsConst' in (y.get('m') or []) for y in walk(e)) and \
-                                any(y.get('k') == 'mem' and y['f'] == 'type' and is_ref(y['b']) and strip_casts(y['b'])['d'] == P['d'] for y in walk(e))
-                        if shared and guarded_by(hcfg, rr.id, const_edge):
-                            continue
-                        ok = False
-                        why = 'helper %s returns %s without a fresh copy and not under cJSON_StringIsConst' % (h.name, expr_str(x)[:40])
-                        break
-                else:
-                    why = 'pointer field assigned %s (shares memory with the source)' % expr_str(r)[:50]
-                R.ob('TAB14', ctx_of.get(a['id'], fn), a, 'pointer field %s of the copy is independent of the source' % name, ok, why,
-                     key='ptr:%s:%s' % (name, 'ok' if ok else expr_str(r)[:40]))
-            elif name == 'type':
-                continue        # decided below for the value the copy is returned with
-            else:
-                ok = r.get('k') == 'mem' and r['f'] == name and derives_from_source(r)
-                R.ob('TAB14', ctx_of.get(a['id'], fn), a, 'scalar field %s copied from the same field of the source' % name, ok, expr_str(r)[:50],
-                     key='scalar:' + name)
-    # type: at every return of the copy, copy->type is source->type with cJSON_IsReference cleared and every other bit kept.
-    # Followed as "which bits of the source's type survive" along the paths, through the node-building helper if there is one.
-    FULL = 0xFFFFFFFF
-
-    def type_masks(F, cpy, sd, depth=0):
-        """{return node id: set of masks (None = not the source's type)} for the returns of the copy"""
-        fcfg = F.cfg()
-        state = {fcfg.entry.id: {('unset',)}}
-        work = [fcfg.entry.id]
-        out = {}
-
-        tc_ = field_cache(u, F, 'type')
-
-        def mask_of(e):
-            e = strip_casts(expand_cached(e, tc_))
-            if e.get('k') == 'mem' and e['f'] == 'type' and is_ref(e['b']) and strip_casts(e['b']).get('d') == sd:
-                return FULL
-            if e.get('k') == 'bin' and e['op'] == '&':
-                for (x, y) in ((e['l'], e['r']), (e['r'], e['l'])):
-                    m = const_val(y)
-                    mx = mask_of(x)
-                    if m is not None and mx is not None:
-                        return mx & (m & FULL)
-            return None
-        while work:
-            nid = work.pop()
-            node = fcfg.nodes[nid]
-            cur = set(state[nid])
-            root = node.expr if node.expr is not None else (node.decl.get('init') if node.kind == 'decl' and node.decl and 'init' in node.decl else None)
-            if node.kind == 'decl' and node.decl and node.decl.get('d') == cpy and root is not None:
-                r = strip_casts(root)
-                cur = call_masks(r, depth)
-            elif root is not None:
-                for x in walk(root):
-                    if x.get('k') != 'bin' or x.get('op') not in ASSIGN_OPS:
-                        continue
-                    l = strip_casts(x['l'])
-                    if l.get('k') == 'ref' and l.get('d') == cpy and x['op'] == '=':
-                        cur = call_masks(strip_casts(x['r']), depth)
-                    elif l.get('k') == 'mem' and l['f'] == 'type' and is_ref(l['b']) and strip_casts(l['b']).get('d') == cpy:
-                        if x['op'] == '=':
-                            cur = {mask_of(x['r'])}
-                        elif x['op'] == '&=' and const_val(x['r']) is not None:
-                            cur = {(None if m is None or m == ('unset',) else m & (const_val(x['r']) & FULL)) for m in cur}
-                        else:
-                            cur = {None}
-            if node.kind == 'return' and node.expr is not None and strip_casts(node.expr).get('k') == 'ref' and strip_casts(node.expr)['d'] == cpy:
-                out[nid] = cur
-            for (y, _l) in fcfg.succ[nid]:
-                old = state.get(y, set())
-                if not cur <= old:
-                    state[y] = old | cur
-                    work.append(y)
-        return out, fcfg
-
-    def call_masks(r, depth):
-        if r.get('k') == 'call':
-            for (F2, c2, s2) in contexts[1:]:
-                if callee_name(r) == F2.name and depth < 2:
-                    o, _c = type_masks(F2, c2, s2, depth + 1)
-                    ms = set()
-                    for v in o.values():
-                        ms |= v
-                    return ms or {('unset',)}
-        return {('unset',)}
-    tm, tcfg = type_masks(fn, copy, src['d'])
-    if not tm:
-        raise AnalysisBroken('TAB14: no return of the copy found in %s' % fn.name)
-    for nid, masks in sorted(tm.items()):
-        node = tcfg.nodes[nid]
-        bad = [m for m in masks if m is None or m == ('unset',) or (m & 256) or (m & 0x2FF) != 0x2FF]
-        R.ob('TAB14', fn, node.stmt, 'the copy is returned with the source\'s type, cJSON_IsReference cleared and every other bit kept', not bad,
-             'bits kept: %s' % sorted(hex(m) for m in masks if isinstance(m, int)) if not bad else
-             ('on some path the reference bit survives (bits kept: %s)' % hex(bad[0]) if isinstance(bad[0], int) and (bad[0] & 256) else
-              'on some path the type is %s' % ('never stored' if bad[0] == ('unset',) else 'not the source\'s type with bits removed'
-                                              if bad[0] is None else 'stripped of more than the reference bit (%s)' % hex(bad[0]))),
-             key='type:%d' % (0 if not bad else 1))
-    # no whole-struct copy
+    # ---- which definition of each field is in effect where the copy leaves the function or is released -----------------
+    ns = NodeStates(u)
+    ncfg, nbefore, _nafter = ns.run(fn, copy, {}, 0)
+    SRC = {src['d']}
+    exits = []          # (cfg node, 'return' | 'release')
+    for rr in ncfg.returns():
+        if rr.expr is not None and strip_casts(rr.expr).get('k') == 'ref' and strip_casts(rr.expr)['d'] == copy and rr.id in nbefore:
+            exits.append((rr, 'return'))
     for c in fn.calls():
-        if callee_name(c) in ('memcpy', 'memmove'):
-            R.ob('TAB14', fn, c, 'no whole-node copy', False, 'memcpy in the duplicator shares every pointer field', key='memcpy')
-    for a in assignments(fn):
-        if u.ty(strip_casts(a['l'])['ty'])['c'] == 'record':
-            R.ob('TAB14', fn, a, 'no whole-node copy', False, 'struct assignment shares every pointer field', key='structcopy')
+        if callee_name(c) == 'cJSON_Delete' and c['args'] and is_ref(c['args'][0]) and strip_casts(c['args'][0])['d'] == copy:
+            m = node_containing(ncfg, c)
+            if m.id in nbefore:
+                exits.append((m, 'release'))
+    if not any(k == 'return' for (_m, k) in exits):
+        raise AnalysisBroken('TAB14: no return of the copy found in %s' % fn.name)
+    _fl = {}
+
+    def fresh_locals(F):
+        """locals of F that only ever hold fresh allocations (or NULL, or another such local): greatest fixpoint"""
+        if F.name in _fl:
+            return _fl[F.name]
+        dd = {}
+        pars = {p['d'] for p in F.params}
+        for a in assignments(F):
+            if is_ref(a['l']):
+                dd.setdefault(strip_casts(a['l'])['d'], []).append(a['r'] if a['op'] == '=' else None)
+        for dcl in F.locals():
+            if 'init' in dcl:
+                dd.setdefault(dcl['d'], []).append(dcl['init'])
+        lf = {d: True for d in dd if d not in pars}
+        ch = True
+        while ch:
+            ch = False
+            for d, rs in dd.items():
+                if not lf.get(d):
+                    continue
+                for r0 in rs:
+                    r = strip_casts(r0) if r0 is not None else {}
+                    good = r0 is not None and ((r.get('k') == 'call' and callee_name(r) in fresh) or is_null_const(r0) or r.get('null') or
+                                               (r.get('k') == 'ref' and lf.get(r.get('d'))))
+                    if not good:
+                        lf[d] = False
+                        ch = True
+                        break
+        _fl[F.name] = lf
+        return lf
+
+    def is_source(d, e):
+        e = strip_casts(e)
+        if e.get('k') != 'ref':
+            return False
+        if e.get('d') in SRC:
+            return True
+        b = d.bind.get(e.get('d'))
+        return b is not None and strip_casts(b).get('k') == 'ref' and strip_casts(b).get('d') in SRC
+
+    def from_source(d, e):
+        return source_of(d, e, SRC)
+
+    def judge_ptr(d, name):
+        """(ok, why, is_fresh) for definition d of pointer field `name`"""
+        if d.kind == 'zero':
+            return True, 'NULL', False
+        if d.kind == 'whole':
+            return False, 'the %s shares the pointer with the source' % d.describe(), False
+        if d.kind == 'uninit':
+            return False, 'never stored', False
+        if d.kind == 'callee':
+            h = u.functions.get(d.why)
+            call = d.stmt
+            lf = fresh_locals(d.fn)
+            okc = h is not None
+            for hs in (assignments(h) if h is not None else []):
+                l = strip_casts(hs['l'])
+                if not (l.get('k') == 'mem' and l['f'] == name and is_ref(l['b']) and strip_casts(l['b']).get('dk') == 'param'):
+                    continue
+                r = strip_casts(hs['r'])
+                if is_null_const(hs['r']) or (r.get('k') == 'call' and callee_name(r) in fresh):
+                    continue
+                if r.get('k') == 'ref' and r.get('dk') == 'param':
+                    idx = [k for k, p in enumerate(h.params) if p['d'] == r['d']]
+                    a = strip_casts(call['args'][idx[0]]) if idx and idx[0] < len(call['args']) else {}
+                    if (a.get('k') == 'ref' and lf.get(a.get('d'))) or (a.get('k') == 'call' and callee_name(a) in fresh):
+                        continue
+                okc = False
+            return okc, ('helper %s stores only fresh nodes' % d.why) if okc else ('helper %s stores a pointer that is not a fresh copy' % d.why), okc
+        if d.kind != 'store':
+            return False, d.describe(), False
+        r = strip_casts(d.r)
+        lf = fresh_locals(d.fn)
+        if r.get('k') == 'call' and callee_name(r) in fresh:
+            return True, 'fresh allocation from %s' % callee_name(r), True
+        if r.get('k') == 'ref' and lf.get(r['d']):
+            return True, 'local %s holds only fresh allocations' % r['n'], True
+        if r.get('k') == 'cond':
+            # constant key may stay shared: (item->type & cJSON_StringIsConst) ? item->string : strdup
+            c = r['c']
+            t_arm, e_arm = strip_casts(r['t']), strip_casts(r['e'])
+            constflag = any('cJSON_StringIsConst' in (x.get('m') or []) for x in walk(c))
+            arms_ok = True
+            shared = 0
+            for arm in (t_arm, e_arm):
+                if arm.get('k') == 'call' and callee_name(arm) in fresh:
+                    continue
+                if from_source(d, arm) and name == 'string' and constflag:
+                    shared += 1
+                    continue
+                arms_ok = False
+            # the shared arm must be the one taken when the flag is set
+            if arms_ok and shared == 1:
+                flag_arm = t_arm
+                cc = strip_casts(c)
+                if cc.get('k') == 'un' and cc['op'] == '!':
+                    flag_arm = e_arm
+                arms_ok = from_source(d, flag_arm) and flag_arm.get('k') != 'call'
+            ok = arms_ok and shared <= 1
+            return ok, ('shared only under cJSON_StringIsConst, otherwise a fresh copy' if ok else
+                        'pointer taken from the source without a copy'), ok
+        if r.get('k') == 'call' and callee_name(r) in u.functions and u.functions[callee_name(r)].static and name == 'string':
+            # a helper that hands back the source's key only under its constant-key bit and a fresh copy otherwise
+            h = u.functions[callee_name(r)]
+            bound = [p for p, a0 in zip(h.params, r['args']) if from_source(d, a0) and strip_casts(a0).get('k') == 'ref']
+            hcfg = h.cfg()
+            ok = bool(bound)
+            why = 'helper %s: shared only under cJSON_StringIsConst, otherwise a fresh copy' % h.name
+            for rr in hcfg.returns():
+                if rr.expr is None:
+                    ok = False
+                    break
+                x = strip_casts(rr.expr)
+                if is_null_const(rr.expr) or (x.get('k') == 'call' and callee_name(x) in fresh):
+                    continue
+                P = bound[0] if bound else None
+                shared = P is not None and x.get('k') == 'mem' and x['f'] == 'string' and is_ref(x['b']) and \
+                    strip_casts(x['b'])['d'] == P['d']
+
+                def const_edge(nn, l, P=P):
+                    if nn.kind != 'branch' or l is None or l[0] != 'T' or P is None:
+                        return False
+                    e = strip_casts(nn.expr)
+                    pc = cmp_parts(e)
+                    if pc is not None and pc[2] == 0 and pc[1] == '!=':
+                        e = strip_casts(pc[0])
+                    return e.get('k') == 'bin' and e['op'] == '&' and any('cJSON_StringIsConst' in (y.get('m') or []) for y in walk(e)) and \
+                        any(y.get('k') == 'mem' and y['f'] == 'type' and is_ref(y['b']) and strip_casts(y['b'])['d'] == P['d'] for y in walk(e))
+                if shared and guarded_by(hcfg, rr.id, const_edge):
+                    continue
+                ok = False
+                why = 'helper %s returns %s without a fresh copy and not under cJSON_StringIsConst' % (h.name, expr_str(x)[:40])
+                break
+            return ok, why, ok
+        return False, 'pointer field assigned %s (shares memory with the source)' % expr_str(r)[:50], False
+
+    FULL = 0xFFFFFFFF
+    _tc = {}
+
+    def type_mask(d):
+        """bits of the source's type that survive in definition d of copy->type; None = not the source's type; 'unset'"""
+        if d.kind in ('zero', 'uninit'):
+            return ('unset',)
+        if d.kind == 'whole':
+            return FULL if is_source(d, d.src) else None
+        if d.kind == 'store':
+            if d.fn.name not in _tc:
+                _tc[d.fn.name] = field_cache(u, d.fn, 'type')
+
+            def mask_of(e):
+                e = strip_casts(expand_cached(e, _tc[d.fn.name]))
+                if e.get('k') == 'mem' and e['f'] == 'type' and is_source(d, e['b']):
+                    return FULL
+                if e.get('k') == 'bin' and e['op'] == '&':
+                    for (x, y) in ((e['l'], e['r']), (e['r'], e['l'])):
+                        m = const_val(y)
+                        mx = mask_of(x)
+                        if m is not None and mx is not None:
+                            return mx & (m & FULL)
+                return None
+            return mask_of(d.r)
+        if d.kind == 'upd':
+            ms = [type_mask(p) for p in d.prev]
+            if not ms or any(m is None or m == ('unset',) for m in ms):
+                return None
+            m = 0
+            for x in ms:
+                m |= x          # the weakest of the bases: a bit survives if it survives in any of them
+            for o in d.ops.values():
+                c = const_val(o.r)
+                if o.op == '&=' and c is not None:
+                    m &= (c & FULL)
+                else:
+                    return None
+            return m
+        return None
+
+    seen_obs = set()
+    copied = {name: False for (name, _t) in fields}
+    for (m, kind) in exits:
+        state = nbefore[m.id]
+        for (name, t) in fields:
+            for d in sorted(state[name], key=lambda d: repr(d.key())):
+                if d.kind == 'nocopy':
+                    continue
+                ident = (name, d.key(), kind if name == 'type' else None)
+                site = d.stmt if d.stmt is not None and d.fn is not None else None
+                F_ = d.fn or fn
+                if d.kind in ('zero', 'uninit') and d.fn is not fn:
+                    site, F_ = None, fn         # nothing stored since the constructor: the duplicator is the construct to name
+                where = 'returned (line %d)' % m.line if kind == 'return' else 'released (cJSON_Delete at line %d)' % m.line
+                if name in ('next', 'prev'):
+                    if kind != 'return' or ident in seen_obs:
+                        continue
+                    seen_obs.add(ident)
+                    ok = d.kind == 'zero'
+                    R.ob('TAB14', F_, site, 'returned copy has no sibling links (%s is NULL)' % name, ok, d.describe(), key='field:' + name)
+                elif name == 'type':
+                    if kind != 'return':
+                        continue
+                    mk = type_mask(d)
+                    bad = mk is None or mk == ('unset',) or (mk & 256) or (mk & 0x2FF) != 0x2FF
+                    ident = (name, d.key(), m.id)
+                    if ident in seen_obs:
+                        continue
+                    seen_obs.add(ident)
+                    R.ob('TAB14', fn, m.stmt, 'the copy is returned with the source\'s type, cJSON_IsReference cleared and every other bit kept',
+                         not bad, 'bits kept: %s (%s)' % (hex(mk), d.describe()) if not bad else
+                         ('on some path the reference bit survives (bits kept: %s; %s)' % (hex(mk), d.describe()) if isinstance(mk, int) and (mk & 256) else
+                          'on some path the type is %s (%s)' % ('never stored' if mk == ('unset',) else 'not the source\'s type with bits removed'
+                                                               if mk is None else 'stripped of more than the reference bit (%s)' % hex(mk),
+                                                               d.describe())),
+                         key='type:%d' % (0 if not bad else 1))
+                elif t['c'] == 'ptr':
+                    ok, why, is_fresh = judge_ptr(d, name)
+                    if is_fresh and kind == 'return':
+                        copied[name] = True
+                    if ident in seen_obs:
+                        continue
+                    seen_obs.add(ident)
+                    R.ob('TAB14', F_, site, 'pointer field %s of the copy is independent of the source where the copy is %s' % (
+                        name, 'returned or released'), ok, why if ok else '%s; in effect where the copy is %s' % (why, where),
+                         key='ptr:%s:%s' % (name, 'ok' if ok else d.describe()[:40]))
+                else:
+                    if kind != 'return' or ident in seen_obs:
+                        continue
+                    seen_obs.add(ident)
+                    if d.kind == 'whole':
+                        ok = is_source(d, d.src)
+                    elif d.kind == 'store':
+                        r = strip_casts(d.r)
+                        ok = r.get('k') == 'mem' and r['f'] == name and is_source(d, r['b'])
+                    else:
+                        ok = False
+                    if ok:
+                        copied[name] = True
+                    R.ob('TAB14', F_, site, 'scalar field %s copied from the same field of the source' % name, ok,
+                         d.describe() if d.kind not in ('zero', 'uninit') else 'no store to copy->%s (%s)' % (name, d.describe()),
+                         key='scalar:' + name)
+    for (name, t) in fields:
+        if name in ('next', 'prev', 'type'):
+            continue
+        if t['c'] == 'ptr':
+            R.ob('TAB14', fn, None, 'field %s is copied' % name, copied[name],
+                 'a fresh copy is stored on some path to a return' if copied[name] else 'no fresh copy of %s reaches a return' % name,
+                 key='field:' + name)
     # non-recursive mode returns before touching child
     cfg = fn.cfg()
     recp = fn.param('recurse')
@@ -478,6 +574,11 @@ def tab14(units, R):
         if not (key_stores and releases):
             continue
         T = {node_containing(fcfg, a).id for a in type_stores}
+        # a whole-node copy carries the type along with the key
+        for c in F.calls():
+            if callee_name(c) in ('memcpy', 'memmove') and len(c['args']) == 3 and is_ref(c['args'][0]) and \
+                    strip_casts(c['args'][0])['d'] == cpy and ns._is_whole_size(c['args'][2]):
+                T.add(node_containing(fcfg, c).id)
         # a copy that comes out of the node-building helper already carries its type
         if F is fn and len(contexts) > 1:
             for m in fcfg.nodes:
